@@ -214,7 +214,7 @@ fn gen_ops(rng: &mut Rng, maxn: usize) -> (Vec<Op>, String) {
     } else if shape < 95 {
         // fan: source -> k mids -> sink, k larger than any small constant channel capacity
         name = "fan";
-        let k = *rng.pick(&[5usize, 17, 33, 65, 100, 130]);
+        let k = *rng.pick(&[5usize, 17, 33, 65, 100, 130, 130, 270]);
         add_fns(rng, &mut ops, k + 2, 0);
         for m in 1..=k {
             ops.push(Op::Edge { k: kind(rng), a: 0, b: m });
@@ -319,7 +319,7 @@ fn gen_runcfg(rng: &mut Rng, stream: bool, shared_only: bool) -> RunCfg {
                 0 | 1 => Strat::Non,
                 2 => Strat::Ignore,
                 3..=5 => Strat::Finish,
-                _ => Strat::PollN(rng.below(4)),
+                _ => Strat::PollN(if rng.chance(15) { rng.below(60) } else { rng.below(4) }),
             };
             c.incl = rng.chance(55);
         }
@@ -488,6 +488,7 @@ impl GenChooser {
 /// ---------------------------------------------------------------- case execution
 struct Session {
     cfgs: Vec<RunCfg>,
+    coop: bool,
     script: Option<Vec<Vec<Act>>>, // None = generate
 }
 
@@ -542,13 +543,13 @@ fn run_case(
         match s.script {
             Some(script) => {
                 let mut it = script.into_iter();
-                session(&mut g, &s.cfgs, out, &mut |_v, _step| it.next());
+                session(&mut g, &s.cfgs, s.coop, out, &mut |_v, _step| it.next());
             }
             None => {
                 let burst = rng.chance(22);
                 let abort_at = if allow_abort && rng.chance(35) { Some(1 + rng.below(4) as usize) } else { None };
                 let mut ch = GenChooser { rng: Rng(rng.next() | 1), useless: 0, allow_abort, midpoll_intr: midpoll, steps: 0, burst, abort_at };
-                session(&mut g, &s.cfgs, out, &mut |v, step| ch.choose(v, step));
+                session(&mut g, &s.cfgs, s.coop, out, &mut |v, step| ch.choose(v, step));
             }
         }
     }
@@ -578,11 +579,11 @@ fn gen_main(seed: u64, count: usize, kinds: &str, maxn: usize) {
                 let sb = has("stream") && rng.chance(30);
                 let a = gen_runcfg(&mut rng, sa, true);
                 let b = gen_runcfg(&mut rng, sb, true);
-                sessions.push(Session { cfgs: vec![a, b], script: None });
+                sessions.push(Session { cfgs: vec![a, b], coop: rng.chance(50), script: None });
             } else if has("stream") && (!has("run") || pick < 35) {
-                sessions.push(Session { cfgs: vec![gen_runcfg(&mut rng, true, false)], script: None });
+                { let c = gen_runcfg(&mut rng, true, false); sessions.push(Session { cfgs: vec![c], coop: rng.chance(50), script: None }); }
             } else if has("run") {
-                sessions.push(Session { cfgs: vec![gen_runcfg(&mut rng, false, false)], script: None });
+                { let c = gen_runcfg(&mut rng, false, false); sessions.push(Session { cfgs: vec![c], coop: rng.chance(50), script: None }); }
             }
         }
         let midpoll = has("midpoll");
@@ -639,7 +640,7 @@ fn replay_main(path: &str) {
                     fails = parse_csv(f);
                 }
             } else if l.starts_with("session") {
-                sessions.push(Session { cfgs: vec![], script: Some(vec![]) });
+                sessions.push(Session { cfgs: vec![], coop: l.contains("coop=1"), script: Some(vec![]) });
             } else if l.starts_with("run ") {
                 if let (Some(s), Some((_, cfg))) = (sessions.last_mut(), RunCfg::parse(l)) {
                     s.cfgs.push(cfg);
@@ -942,7 +943,7 @@ fn enum_main(maxn: usize, part: usize, parts: usize, streams: bool) {
                 let (g, built) = build(b);
                 out.push(built);
                 if let Some(mut g) = g {
-                    session(&mut g, std::slice::from_ref(cfg), &mut out, &mut |v, step| ch.choose(v, step));
+                    session(&mut g, std::slice::from_ref(cfg), (gi + ci) % 2 == 1, &mut out, &mut |v, step| ch.choose(v, step));
                 }
                 out.push("end".into());
                 for l in out {
